@@ -647,3 +647,6 @@ EXPLANATION += (
 ASSUMPTIONS = ["reference tables in /verif/reference/language.json state the documented surface (docs/*.md); rows marked 'confirmed on ec803c6' are what the suite and the examples assume"]
 TRUSTED = ["rustc nightly HIR/MIR", "nsx exporter", "nsverif partial evaluator and pattern evaluator"]
 NONTRIVIAL = "one obligation per table cell / operator / path-shape clause; distinct = distinct cell"
+EXPLANATION += (
+    ' Round 6: R10 shares C13-R5 (join by position) and C13-R7 (thin wrappers); R11 shares C03-R4 / R4f (liveness transfer, fact sets deduplicated against themselves) and C09-R11 (always-returns is a must-analysis): pruning and an over-confident checker must leave results alone.'
+)
